@@ -285,6 +285,47 @@ ImplAccept(d) == LET w == Walk(d) IN
                  /\ ~w.raised                                  \* any exception = failure (_verify)
                  /\ (d.viol = "none" \/ ~Examined(d, w))
 
+-----------------------------------------------------------------------------
+(* ENVIRONMENT OF THE COMMAND.  In operation the gate is the process
+   `python -m dawgie.tools.compliant --ae-dir=<checkout>/<pkg> --ae-pkg=<pkg>`
+   spawned by tools/submit.py in the environment of the pipeline, where
+   ANOTHER copy of the same base package (the engine that is deployed now) is
+   importable as well.  The rules and pl.scan import the modules of the
+   engine by dotted name, so which copy is judged is decided by the order of
+   the import path of that process.
+   An environment case is [sub, dec, at]:
+     sub  descriptor of the submitted checkout (what --ae-dir points at)
+     dec  descriptor of the decoy: a second copy with the SAME base package
+          name and the same layout whose compliance is the opposite of sub
+     at   where the environment lists the decoy: front or back of PYTHONPATH
+   Property level: the verdict of the command is Accept(sub), whatever else
+   the import path offers. *)
+Ats == {"front", "back"}
+Twin(d) == [d EXCEPT !.viol = "none", !.pos = NoPos]          \* the conforming package of the same layout
+ClaimedViolating(d) == d.viol \in { x.v : x \in Viol }
+E(sub, dec, at) == [sub |-> sub, dec |-> dec, at |-> at]
+EnvCasesOf(d) == IF ClaimedViolating(d)
+                 THEN { E(d, Twin(d), a) : a \in Ats } \cup { E(Twin(d), d, a) : a \in Ats }
+                 ELSE {}
+EnvWellFormed(c) ==
+    /\ c.at \in Ats
+    /\ WellFormed(c.sub) /\ WellFormed(c.dec)
+    /\ \/ ClaimedViolating(c.sub) /\ c.dec = Twin(c.sub)
+       \/ ClaimedViolating(c.dec) /\ c.sub = Twin(c.dec)
+
+(* PROPERTY LEVEL *)
+CmdAccept(c) == Accept(c.sub)
+
+(* IMPLEMENTATION-SHAPED: compliant.main() puts the parent directory of
+   --ae-dir at the FRONT of sys.path; the entries of the environment follow
+   ("std" = the entries that do not provide the base package: cwd, dawgie,
+   the standard library).  importlib serves the first entry that provides
+   the package. *)
+EnvPath(c)    == IF c.at = "front" THEN <<"dec", "std">> ELSE <<"std", "dec">>
+ImportPath(c) == <<"sub">> \o EnvPath(c)
+Provider(q)   == q[CHOOSE i \in DOMAIN q : q[i] # "std" /\ \A j \in 1..(i - 1) : q[j] = "std"]
+ImplCmdAccept(c) == Accept(IF Provider(ImportPath(c)) = "sub" THEN c.sub ELSE c.dec)
+
 (* rules expected among those that fail when a violating package is
    rejected; used only as a sanity check of the injection (drift) *)
 Owners(d) == IF d.viol = "fac_notroutine" /\ d.pos.k = "events"
